@@ -232,6 +232,18 @@ func buildSAED(c saedCase, content []byte) ([]byte, error) {
 	return sd.Finish()
 }
 
+var errRefused = errors.New("refused by the caller's verify function")
+
+var tamperNames = []string{"last signature octet changed", "middle signature octet changed", "serial number of the signer changed", "signer infos removed"}
+
+// openSAED calls one of the two SignedAndEnvelopedData entry points.
+func openSAED(entry string, p7 *pkcs7.PKCS7, cert *smx509.Certificate, key crypto.PrivateKey, fn pkcs7.VerifyFunc) ([]byte, error) {
+	if entry == "DecryptAndVerifyOnlyOne" {
+		return p7.DecryptAndVerifyOnlyOne(key, fn)
+	}
+	return p7.DecryptAndVerify(cert, key, fn)
+}
+
 func checkSAED(c saedCase, r *h.Rec) error {
 	r.Label("cipher:%s", c.Cipher)
 	r.Label("signers:%d", len(c.Signers))
@@ -297,18 +309,84 @@ func checkSAEDInner(c saedCase, r *h.Rec) error {
 			return fmt.Errorf("recipient info %d (%s key): key encryption algorithm %s, want %s: %s", i, who.kind, oidString(f[2].children[0].content), wantAlg, desc())
 		}
 	}
+	// tamperings of the signer infos (TLV tree): signature octet changed, signature
+	// of another message, issuerAndSerial pointing nowhere, signer infos removed
+	var tampered [][]byte
+	for ti := range tamperNames {
+		t := cloneTree(root)
+		sis := t.child(1).child(0).children[len(t.child(1).child(0).children)-1]
+		if !sis.is(0x31) || len(sis.children) == 0 {
+			return fmt.Errorf("no signer infos in the produced message: %s", desc())
+		}
+		sv, err := viewSigner(sis.children[0])
+		if err != nil {
+			return fmt.Errorf("signer info layout: %v: %s", err, desc())
+		}
+		switch ti {
+		case 0:
+			sv.sig.content[len(sv.sig.content)-1] ^= 0x01
+		case 1:
+			sv.sig.content[len(sv.sig.content)/2] ^= 0x80
+		case 2:
+			sv.n.children[1].children[1].content = []byte{0x7f, 0x01, 0x02}
+		case 3:
+			sis.children = []*node{}
+		}
+		tampered = append(tampered, t.encode())
+	}
 	isRecipient := map[string]bool{}
 	for _, n := range c.Recips {
 		isRecipient[n] = true
 		who := id(n)
+		// both entry points: the caller's verification callback is what stands between
+		// decryption and the result, so it must run exactly once, on the decrypted
+		// content, and its verdict must be the call's verdict
+		entries := []string{"DecryptAndVerify"}
+		if len(c.Recips) == 1 {
+			entries = append(entries, "DecryptAndVerifyOnlyOne")
+		}
+		for _, entry := range entries {
+			q, _ := pkcs7.Parse(der)
+			verified := 0
+			got, err := openSAED(entry, q, who.cert, who.key, func() error { verified++; return q.Verify() })
+			if err != nil || !bytes.Equal(got, content) || verified != 1 {
+				return fmt.Errorf("recipient %s: %s gives %x, %v (verify function called %d times): %s", n, entry, got, err, verified, desc())
+			}
+			q, _ = pkcs7.Parse(der)
+			var seen []byte
+			calls := 0
+			got, err = openSAED(entry, q, who.cert, who.key, func() error { calls++; seen = append([]byte{}, q.Content...); return errRefused })
+			if err == nil || got != nil {
+				return fmt.Errorf("%s returns %x, %v although the verify function refused: %s", entry, got, err, desc())
+			}
+			if !errors.Is(err, errRefused) || calls != 1 {
+				return fmt.Errorf("%s: verify function called %d times, its error comes back as %v: %s", entry, calls, err, desc())
+			}
+			if !bytes.Equal(seen, content) {
+				return fmt.Errorf("%s: the verify function sees content %x: %s", entry, seen, desc())
+			}
+			q, _ = pkcs7.Parse(der)
+			if got, err := openSAED(entry, q, who.cert, who.key, nil); err != nil || !bytes.Equal(got, content) {
+				return fmt.Errorf("%s without a verify function (documented: optional) gives %x, %v: %s", entry, got, err, desc())
+			}
+			// a tampered signature is refused through the entry point
+			for ti, bad := range tampered {
+				q, err := pkcs7.Parse(bad)
+				if err != nil {
+					continue
+				}
+				if got, err := openSAED(entry, q, who.cert, who.key, func() error { return q.Verify() }); err == nil {
+					return fmt.Errorf("%s returns %x for the message with tampering #%d (%s): %s tampered=%x", entry, got, ti, tamperNames[ti], desc(), bad)
+				}
+			}
+			r.Label("entry:%s", entry)
+		}
 		p7, err := pkcs7.Parse(der)
 		if err != nil {
 			return fmt.Errorf("Parse: %v: %s", err, desc())
 		}
-		verified := 0
-		got, err := p7.DecryptAndVerify(who.cert, who.key, func() error { verified++; return p7.Verify() })
-		if err != nil || !bytes.Equal(got, content) || verified != 1 {
-			return fmt.Errorf("recipient %s: DecryptAndVerify gives %x, %v (verify function called %d times): %s", n, got, err, verified, desc())
+		if _, err := p7.DecryptAndVerify(who.cert, who.key, func() error { return p7.Verify() }); err != nil {
+			return fmt.Errorf("DecryptAndVerify: %v: %s", err, desc())
 		}
 		// every signature verifies independently over the content
 		itA, err := itemsFromP7(p7)
@@ -331,21 +409,13 @@ func checkSAEDInner(c saedCase, r *h.Rec) error {
 				return fmt.Errorf("no signer info selects the certificate of signer %s: %s", s, desc())
 			}
 		}
-		// the signature really is checked: a verify function sees the decrypted content
+	}
+	if len(c.Recips) > 1 {
+		who := id(c.Recips[0])
 		q, _ := pkcs7.Parse(der)
-		var seen []byte
-		if _, err := q.DecryptAndVerify(who.cert, who.key, func() error { seen = append([]byte{}, q.Content...); return errors.New("refused by the caller") }); err == nil {
-			return fmt.Errorf("DecryptAndVerify ignores the error of the verify function: %s", desc())
-		}
-		if !bytes.Equal(seen, content) {
-			return fmt.Errorf("the verify function sees content %x: %s", seen, desc())
-		}
-		if len(c.Recips) == 1 {
-			q, _ := pkcs7.Parse(der)
-			got, err := q.DecryptAndVerifyOnlyOne(who.key, func() error { return q.Verify() })
-			if err != nil || !bytes.Equal(got, content) {
-				return fmt.Errorf("DecryptAndVerifyOnlyOne gives %x, %v: %s", got, err, desc())
-			}
+		calls := 0
+		if got, err := q.DecryptAndVerifyOnlyOne(who.key, func() error { calls++; return q.Verify() }); err == nil || calls != 0 {
+			return fmt.Errorf("DecryptAndVerifyOnlyOne on a message with %d recipients gives %x, %v (documented: refused): %s", len(c.Recips), got, err, desc())
 		}
 	}
 	never := func(what string, cert *smx509.Certificate, key crypto.PrivateKey, mustFail bool) error {
